@@ -4,6 +4,9 @@ use crate::{Ctx, Recorder};
 
 pub mod c07;
 pub mod c08;
+pub mod c09;
+pub mod c20;
+pub mod c21;
 pub mod c22;
 pub mod c23;
 pub mod c25;
@@ -20,6 +23,9 @@ pub fn dispatch(ctx: &Ctx) -> i32 {
         "OBS" => obs::run(ctx, &mut rec),
         "C07" => c07::run(ctx, &mut rec),
         "C08" => c08::run(ctx, &mut rec),
+        "C09" => c09::run(ctx, &mut rec),
+        "C20" => c20::run(ctx, &mut rec),
+        "C21" => c21::run(ctx, &mut rec),
         "C22" => c22::run(ctx, &mut rec),
         "C23" => c23::run(ctx, &mut rec),
         "C25" => c25::run(ctx, &mut rec),
